@@ -454,7 +454,10 @@ class Facts:
                         rows.append(atom(a) - rest.scale(lbs[fac]))
                         for b in rest.atoms():
                             atoms.add(b)
-        for a in list(atoms):
+        work = list(atoms)
+        seen_atoms = set(atoms)
+        while work:
+            a = work.pop()
             if a[0] == "unk" or _signed_atom(a):
                 continue  # memcmp's result is a signed quantity
             rows.append(atom(a))  # unsigned quantity
@@ -462,8 +465,10 @@ class Facts:
                 rows.append(atom(a) - a[1])  # AlignUp(z) >= z
                 rows.append(a[1] + (a[2] - 1) - atom(a))  # AlignUp(z) <= z + A - 1
                 for b, _ in a[1].t:
-                    if b not in atoms and b[0] != "unk":
-                        rows.append(atom(b))
+                    # (nested AlignUp atoms get their own bounds)
+                    if b not in seen_atoms and b[0] != "unk":
+                        seen_atoms.add(b)
+                        work.append(b)
         return rows
 
     def eval(self, c):
@@ -895,6 +900,17 @@ def _simplify(t, facts, depth):
             # x & m where the low j bits of x are known zero and m | (2^j - 1) == 2^k - 1:  x mod 2^k
             x, mk = (a[2], a[1].c) if a[1].is_const() else (a[1], a[2].c)
             x = simplify(x, facts, depth + 1)
+            if mk < 0 and mk >= -(1 << 12):
+                # a rounding-down mask -2^k from which the compiler removed further bits it knew to be zero in x
+                # (e.g. -12 instead of -4): with the same knowledge (congruence of x) it is x & -2^k
+                k_ = (mk & -mk).bit_length() - 1
+                extra = [b for b in range(k_, 12) if not (mk >> b) & 1]
+                if extra:
+                    m_, r_ = facts.cong(x)
+                    top = max(extra) + 1
+                    if (m_ == 0 or m_ >= (1 << top)) and all(not (r_ >> b) & 1 for b in extra):
+                        return simplify(mk_alignup(x - ((1 << k_) - 1), 1 << k_), facts, depth + 1)
+                return mk_and(x, const(mk))
             if mk > 0:
                 m_, r_ = facts.cong(x)
                 if m_ == 0:
